@@ -34,6 +34,9 @@ def gen_cases(tier):
         if not T.is_micro(v):
             for lvl in T.levels_of(v):
                 yield ('dist', v, lvl)
+    for v in (1, 2, 3):
+        for lvl in ('L', 'M', 'H'):
+            yield ('multimode', v, lvl)
     if tier == 'thorough':
         for v in (1, 2, 9, 10, 26, 27):
             for lvl in ('L', 'H'):
@@ -141,6 +144,15 @@ def run_case(case, acc):
             dist(v, lvl, d, acc)
     elif kind == 'dist1':
         dist(case[1], case[2], case[3], acc)
+    elif kind == 'multimode':
+        _, v, lvl = case
+        for pair in (('hanzi', '\u4e66', 'gb2312', 13), ('kanji', '\u70b9', 'shift_jis', 8)):
+            for k1 in (1, 2, 4):
+                for k2 in (1, 3, 4):
+                    for mid in ('7', '77', 'A'):
+                        multimode(v, lvl, pair, k1, mid, k2, acc)
+    elif kind == 'multimode1':
+        multimode(case[1], case[2], tuple(case[3]), case[4], case[5], case[6], acc)
     elif kind == 'multi1':
         multi(case[1], case[2], case[3], acc)
     else:
@@ -176,6 +188,32 @@ def dist(v, lvl, d, acc):
     except C.REFUSALS as e:
         acc.eval(case, nontrivial=False, outcome='refused')
         acc.violation('refused-fitting', 'two-part content needing %d of %d bits was refused: %s' % (cap - d, cap, str(e)[:60]), case)
+        return
+    judge(qr, parts, v, lvl, acc, case)
+
+
+def multimode(v, lvl, pair, k1, mid, k2, acc):
+    """<k1 double-byte chars> <digits / letter> <k2 double-byte chars>: two segments of a mode with extra header bits in one symbol"""
+    mode, ch, enc, const = pair
+    case = ('multimode1', v, lvl, list(pair), k1, mid, k2)
+    midmode = 'numeric' if mid.isdigit() else 'alphanumeric'
+    content = [(ch * k1, const), mid, (ch * k2, const)]
+    parts = [(mode, (ch * k1).encode(enc), None), (midmode, mid.encode(), None), (mode, (ch * k2).encode(enc), None)]
+    if S.data_stream(parts, v, lvl) is None:
+        # must not be accepted into this version
+        try:
+            segno.make(content, version=v, error=lvl, boost_error=False, mask=1)
+        except C.REFUSALS:
+            acc.eval(case, nontrivial=True, outcome='refused-overflow')
+            return
+        acc.eval(case, nontrivial=True, outcome='accepted-overflow')
+        acc.violation('overflow-accepted', 'three segments that need more than the capacity of %s-%s were accepted' % (v, lvl), case)
+        return
+    try:
+        qr = segno.make(content, version=v, error=lvl, boost_error=False, mask=1)
+    except C.REFUSALS as e:
+        acc.eval(case, nontrivial=False, outcome='refused')
+        acc.violation('refused-fitting', 'three segments that fit %s-%s were refused: %s' % (v, lvl, str(e)[:60]), case)
         return
     judge(qr, parts, v, lvl, acc, case)
 
